@@ -40,6 +40,7 @@ func (c *Ctx) methodIn(pkg *ssa.Package, typ, name string) *ssa.Function {
 			fn := c.prog.MethodValue(sel)
 			if fn != nil && fn.Synthetic == "" {
 				c.touched(fn.String())
+				c.anchor(fn.String())
 				return fn
 			}
 			// promoted/wrapper: not declared on this type
@@ -85,7 +86,15 @@ func (c *Ctx) funcIn(pkg *ssa.Package, name string) *ssa.Function {
 		c.fail("anchor not found: func %s.%s", pkg.Pkg.Name(), name)
 	}
 	c.touched(fn.String())
+	c.anchor(fn.String())
 	return fn
+}
+
+func (c *Ctx) anchor(name string) {
+	if c.anchored == nil {
+		c.anchored = map[string]bool{}
+	}
+	c.anchored[name] = true
 }
 
 func (c *Ctx) fn(name string) *ssa.Function { return c.funcIn(c.server, name) }
@@ -2164,7 +2173,7 @@ func (c *Ctx) newStateRule(rule string) {
 			return true // nothing outside the state file survives a restart: any new state existing code reads matters
 		}
 		o := outer(fn)
-		return c.funcsSeen[o.String()] || ownerListed(owners, o)
+		return c.anchored[o.String()] || ownerListed(owners, o)
 	}
 	// a use of the address of the state: does it observe the state's value?
 	observes := func(addr ssa.Value) (ssa.Instruction, bool) {
